@@ -59,7 +59,7 @@ def generate(tier, seed):
             lines.append("EVAL (equal `%s %s)" % (txt, cons))
         lines += ["EVAL (setq tpl '`%s) (setq r1 (eval tpl)) (setq r2 (eval tpl)) (list (equal r1 r2) r2)" % txt.replace("(tick", "(progn"),
                   "EVAL (list x l0 l1 l3 tpl)"]
-        if rng.random() < 0.5:
+        if items and rng.random() < 0.5:      # (the empty template evaluates to its own literal nil, like a quoted constant)
             # result 1 (and a list nested in it) is extended IN PLACE through the Rust API; the template, the spliced lists, result 2 and
             # a fresh evaluation must be what they were (results share no cell — not even the terminating nil — with the template or each other)
             # (literal elements of a template are shared with its results, as in Emacs: only lists the evaluation BUILDS are pushed onto —
